@@ -87,8 +87,12 @@ func checkMine(c mineCase) (h.Info, error) {
 	}
 	ctx, cancel := context.WithTimeout(context.Background(), 120*time.Second)
 	defer cancel()
-	nonce, err := powv2.New(c.Workers).Mine(ctx, append([]byte{}, c.Data...), c.Target)
+	dataIn := append([]byte{}, c.Data...)
+	nonce, err := powv2.New(c.Workers).Mine(ctx, dataIn, c.Target)
 	info := h.Info{Class: "mine/" + c.Class}
+	if string(dataIn) != string(c.Data) {
+		return info, fmt.Errorf("v2.Mine modified data")
+	}
 	if err != nil {
 		return info, fmt.Errorf("v2.Mine(data=%x, target=%d, workers=%d): %v", []byte(c.Data), c.Target, c.Workers, err)
 	}
